@@ -194,6 +194,51 @@ def smooth_case(ctx, s, idx, bmkind, traces):
     return err, dyadic
 
 
+def two_leg_case(ctx, s, idx):
+    """The adjoint solve done in two legs - sdeint_adjoint(..., extra=True) up to an interior output time, then
+    sdeint_adjoint(..., extra_solver_state=<returned state>) from there - with the loss on the outputs of both legs.
+    Each call satisfies the premises of the property (fixed steps, output times on the step grid), gradient flows
+    through the returned solver state (f, g, z); the gradients must equal backprop through the one-shot sdeint."""
+    noise, b, d, m, hden, outs = s["noise"], s["batch"], s["d"], s["m"], s["hden"], s["outs"]
+    if len(outs) < 3 or hden & (hden - 1):
+        return None
+    dt = 1.0 / hden
+    n = outs[-1]
+    gen = torch.Generator().manual_seed((ctx.seed * 4099 + idx * 7919 + 11) % (2 ** 31))
+    sde = H.SmoothSDE(noise, d, m, seed=ctx.seed * 19 + idx)
+    y0 = torch.randn(b, d, generator=gen, dtype=F64).requires_grad_()
+    ts = torch.tensor([o * dt for o in outs], dtype=F64)
+    base = H.GridBrownian(0.0, dt, torch.randn(n, b, m, generator=gen, dtype=F64) * math.sqrt(dt))
+    cut = 1 + idx % (len(outs) - 2)                      # index of the interior output time where the solve is split
+    w = H.weights_tensor(gen, (len(outs), b, d))
+    params = list(sde.parameters())
+    key = dict(part="two_leg", noise=noise, grid="dyadic", clause="adjoint_vs_backprop")
+    try:
+        with H.quiet():
+            ys_a, ex = torchsde.sdeint_adjoint(sde, y0, ts[:cut + 1], bm=base, method=PAIR["method"],
+                                               adjoint_method=PAIR["adjoint_method"], dt=dt, extra=True)
+            ys_b = torchsde.sdeint_adjoint(sde, ys_a[-1], ts[cut:], bm=base, method=PAIR["method"],
+                                           adjoint_method=PAIR["adjoint_method"], dt=dt, extra_solver_state=ex)
+            ys = torch.cat([ys_a, ys_b[1:]], dim=0)
+            ga = H.grads_of((ys * w).sum(), [y0] + params)
+            ys2 = torchsde.sdeint(sde, y0, ts, bm=base, method="reversible_heun", dt=dt)
+            gb = H.grads_of((ys2 * w).sum(), [y0] + params)
+    except Exception as e:
+        H.violation_once(ctx, dict(key, clause="valid_call_raised"),
+                         f"two-leg sdeint_adjoint raised {type(e).__name__}: {str(e)[:200]}", replay=dict(s, seed=ctx.seed, idx=idx))
+        return None
+    err = max(H.rel_err(a, c) for a, c in zip(ga, gb))
+    ctx.case(("two_leg", noise, b, d, m, hden, tuple(outs), cut), sample=dict(key, outs=outs, split_at=outs[cut], err=err))
+    if not torch.equal(ys.detach(), ys2.detach()):
+        H.violation_once(ctx, dict(key, clause="forward_equal"),
+                         "two-leg sdeint_adjoint outputs differ from the one-shot sdeint (reversible_heun)")
+    if err > TOL_PROP or not math.isfinite(err):
+        H.violation_once(ctx, key, f"two-leg sdeint_adjoint (split at output {cut} of ts=dt*{outs}, continued from the returned "
+                                   f"extra solver state) gradient differs from one-shot sdeint backprop by relative {err:.3e} "
+                                   f"> 1e-9; batch={b} d={d} m={m} dt=1/{hden}", replay=dict(s, seed=ctx.seed, idx=idx))
+    return err
+
+
 def pair_saving(ctx):
     """ExtrasOnlyForPair on the real code (observation aid: saved tensors of the autograd node)."""
     sde = H.SmoothSDE("diagonal", 2, 2, seed=1)
@@ -248,6 +293,11 @@ def run(ctx):
                 nd["failed"] += err > TOL_PROP
     ctx.notes["worst_rel_err_dyadic"] = worst
     ctx.notes["nondyadic_dt"] = nd
+    # ---- (2b) the adjoint solve in two legs, continued from the returned extra solver state ----
+    two = [e for e in (two_leg_case(ctx, s, idx) for idx, s in enumerate(smooth) if idx % (1 if ctx.tier != "quick" else 2) == 0)
+           if e is not None]
+    ctx.notes["two_leg_cases"] = len(two)
+    ctx.notes["two_leg_worst_rel_err"] = max(two) if two else None
     # ---- (3) ----
     # keep the TLC trace run bounded: all exact traces + a deterministic sample of the smooth ones
     keep = [t for i, t in enumerate(traces) if t["key"]["part"] == "exact" or i % (1 if ctx.tier != "quick" else 3) == 0]
